@@ -57,6 +57,9 @@ func schemaSummary(s *openapi3.SchemaRef, depth int) interface{} {
 
 func specSummary(sw *openapi3.T) map[string]interface{} {
 	out := map[string]interface{}{}
+	if sw.Info != nil {
+		out["info:description-bytes"] = len(sw.Info.Description)
+	}
 	if sw.Components != nil {
 		for name, s := range sw.Components.Schemas {
 			out["schema:"+name] = schemaSummary(s, 0)
@@ -114,6 +117,12 @@ func c19MultiDocs(variant string) (docs map[string]J, order []string) {
 	op := J{"operationId": "postThing", "requestBody": J{"required": true, "content": J{"application/json": J{"schema": J{"$ref": "#/components/schemas/Container"}}}},
 		"responses": J{"204": J{"description": "done"}}}
 	docs = map[string]J{}
+	if variant == "large" {
+		// one document whose JSON is well over a megabyte (a long non-ASCII description): the compiled decoder must return all of it
+		api := J{"openapi": "3.0.3", "info": J{"title": "api", "version": "1", "description": strings.Repeat("é日本 \"x\" \\ ", 150000)},
+			"paths": J{"/things": J{"post": op}}, "components": J{"schemas": J{"Container": J{"type": "object", "properties": props}}}}
+		return map[string]J{"api.json": api}, []string{"api.json"}
+	}
 	useCommon := variant == "mapped+plain" || variant == "mapped" || variant == "mapped-components"
 	usePlain := variant == "mapped+plain" || variant == "plain"
 	if useCommon {
@@ -137,7 +146,7 @@ func c19MultiDocs(variant string) (docs map[string]J, order []string) {
 	return docs, order
 }
 
-var c19MultiVariants = []string{"mapped+plain", "mapped", "mapped-components", "plain"}
+var c19MultiVariants = []string{"mapped+plain", "mapped", "mapped-components", "plain", "large"}
 
 func c19MultiDocRun(ctx *Ctx) error {
 	kit, err := NewRunKit(ctx.Work)
@@ -278,6 +287,9 @@ func schemaSummary(s *openapi3.SchemaRef, depth int) interface{} {
 
 func specSummary(sw *openapi3.T) map[string]interface{} {
 	out := map[string]interface{}{}
+	if sw.Info != nil {
+		out["info:description-bytes"] = len(sw.Info.Description)
+	}
 	if sw.Components != nil {
 		for name, s := range sw.Components.Schemas {
 			out["schema:"+name] = schemaSummary(s, 0)
